@@ -1303,10 +1303,17 @@ func (c *FnCtx) binop(st *State, op token.Token, av, bv Value, at, bt, rt types.
 		case token.SUB:
 			return f.Sub(a, b)
 		case token.MUL:
-			return f.Mul(a, b)
+			return c.mathMul(a, b)
 		case token.REM:
-			// mathematical modulus (result in [0,|b|))
-			return f.Mod(a, b)
+			// mathematical modulus (result in [0,|b|)); with a symbolic modulus an uninterpreted symbol
+			// constrained to that range (congruence is what the proofs need)
+			if b.ival != nil {
+				return f.Mod(a, b)
+			}
+			f.DeclareFun("mmod", []Sort{SInt, SInt}, SInt)
+			c.addAxiom("(assert (forall ((a Int) (b Int)) (! (=> (> b 0) (and (<= 0 (mmod a b)) (< (mmod a b) b))) :pattern ((mmod a b)))))")
+			c.addAxiom("(assert (forall ((a Int) (b Int)) (! (=> (and (> b 0) (<= 0 a) (< a b)) (= (mmod a b) a)) :pattern ((mmod a b)))))")
+			return f.App("mmod", SInt, a, b)
 		case token.QUO:
 			return f.Div(a, b)
 		}
@@ -1385,6 +1392,22 @@ func (c *FnCtx) binop(st *State, op token.Token, av, bv Value, at, bt, rt types.
 	}
 	c.unsupported("operator %s at %s", op, pos)
 	return c.freshValue(st, "binop", rt)
+}
+
+// mathMul: the product of two mathematical integers. A product of two non-constant factors is an
+// uninterpreted (commutative by construction) symbol: the algebra needed here is congruence and
+// commutativity, which nonlinear integer arithmetic decides poorly.
+func (c *FnCtx) mathMul(a, b *Term) *Term {
+	f := c.f
+	if a.ival != nil || b.ival != nil {
+		return f.Mul(a, b)
+	}
+	if a.id > b.id {
+		a, b = b, a
+	}
+	f.DeclareFun("mmul", []Sort{SInt, SInt}, SInt)
+	c.addAxiom("(assert (forall ((a Int) (b Int)) (! (= (mmul a b) (mmul b a)) :pattern ((mmul a b)))))")
+	return f.App("mmul", SInt, a, b)
 }
 
 func (c *FnCtx) shiftVar(st *State, a, b *Term, bits uint, signed, left bool, pos string) *Term {
